@@ -236,6 +236,55 @@ def check_equal(acc, n, num, htag, c, ops):
     acc.outcome('c09', ('equal', n, num < (1 << n)))
 
 
+def check_equal_wide(acc, w):
+    """Widths beyond exhaustive reach: constants around the top of the range x operand values {the constant,
+    the constant with each single bit flipped, 0, all ones}, evaluated bit-parallel (one row per value)."""
+    from cirbo.synthesis.generation.arithmetics import add_equal, generate_equal
+
+    top = 1 << w
+    consts = sorted({0, 1, top - 1, top - 2, top >> 1, (top >> 1) - 1, top, top + 1, int('10' * (w // 2 + 1), 2) % top, int('01' * (w // 2 + 1), 2) % top})
+    for num in consts:
+        vals = [0, top - 1] + ([num] if num < top else []) + [(num % top) ^ (1 << b) for b in range(w)]
+        vals = [v for v in dict.fromkeys(vals) if 0 <= v < top]
+        for via in ('generate', 'add'):
+            acc.states += 1
+            acc.traces += 1
+            acc.transitions += 1
+            case = {'fn': 'add_equal' if via == 'add' else 'generate_equal', 'n': w, 'num': num, 'values': 'stated alphabet'}
+            try:
+                if via == 'generate':
+                    c = generate_equal(w, num)
+                    ops = list(c.inputs)
+                    out = c.outputs[0]
+                else:
+                    c, ops = arith.host('H1', w)
+                    out = add_equal(c, list(ops), num)
+            except Exception as e:  # noqa: BLE001
+                acc.violation(f'add_equal/raises-{type(e).__name__}', case, repr(e))
+                continue
+            net = refmodel.abstract(c)
+            rows = len(vals)
+            mask = (1 << rows) - 1
+            # input vectors: row r carries value vals[r] on the OPERANDS; for H1 operand j = IFF/NOT of input j
+            ivec = []
+            for j in range(w):
+                v = 0
+                for r, val in enumerate(vals):
+                    bit = (val >> j) & 1
+                    if via == 'add' and j % 2 == 1:
+                        bit ^= 1  # operand j is NOT(input j)
+                    v |= bit << r
+                ivec.append(v)
+            tabs = net.tables(ivec, mask)
+            got = tabs[out]
+            want = sum(1 << r for r, val in enumerate(vals) if val == num)
+            if got != want:
+                r = next(r for r in range(rows) if ((got >> r) & 1) != ((want >> r) & 1))
+                acc.violation('add_equal/wrong-result', case, f'value={vals[r]:#x} result={(got >> r) & 1}', {'wide': True})
+    acc.outcome('c09', ('equal-wide', w))
+    acc.sample({'fn': 'generate_equal', 'n': w, 'num': top - 1, 'values': 'stated alphabet'})
+
+
 def check_plus_one(acc, inp, out, be, add_outputs, give_labels, htag, c, ops):
     from cirbo.synthesis.generation.generation import add_plus_one
 
@@ -384,6 +433,25 @@ def check_gadgets(acc):
                     tabs = net.tables()
                     if any(tabs[res[k]] != tabs[x[k]] ^ tabs[y[k]] for k in range(n)):
                         acc.violation('add_pairwise_xor/wrong', case, '', feats)
+    # hosts whose labels resemble names a generator might derive from its operands
+    from cirbo.core.circuit import Circuit
+
+    for trip in itertools.permutations(['s', 'not_s', 't', 'new_s', 's_not', 'not_t'], 3):
+        for give in (False, True):
+            c = Circuit()
+            c.add_inputs(['s', 'not_s', 't', 'new_s', 's_not', 'not_t'])
+            case = {'fn': 'add_if_then_else', 'ops': list(trip), 'host': 'dual-rail labels', 'result_label': give}
+            feats = {'host': 'dual-rail labels'}
+            r = _run(acc, 'add_if_then_else', case, feats, c, lambda: add_if_then_else(c, *trip, result_label='r' if give else None))
+            if r is None:
+                continue
+            before, res = r
+            net = refmodel.abstract(c)
+            tabs = net.tables()
+            m_ = (1 << (1 << 6)) - 1
+            i_, t_, e_ = (tabs[l] for l in trip)
+            if res not in tabs or tabs[res] != ((i_ & t_) | ((i_ ^ m_) & e_)):
+                acc.violation('add_if_then_else/wrong', case, '', feats)
     for opsel in itertools.product(pool[:6], repeat=3):
         for add_outputs in (False, True):
             for give in (False, True):
@@ -451,6 +519,8 @@ def plan(tier):
         t.append({'kind': 'sqrt', 'n': n})
     for n in range(1, (7 if q else 9)):
         t.append({'kind': 'equal', 'n': n})
+    for w in (12, 16, 31, 32, 33, 48, 49, 50, 53, 63, 64, 65, 100) if q else (12, 16, 24, 31, 32, 33, 47, 48, 49, 50, 52, 53, 54, 63, 64, 65, 100, 127, 128, 129, 200):
+        t.append({'kind': 'equalwide', 'n': w})
     for inp in range(1, (7 if q else 9)):
         t.append({'kind': 'plus', 'inp': inp, 'outmax': 8 if q else 10})
     return t
@@ -459,7 +529,7 @@ def plan(tier):
 def describe(tier):
     return {
         'rule': 'sub: generate/add_sub_two_numbers and add_subtract_with_compare for all width pairs x endianness x hosts (H0 inputs, H1 '
-        'non-input operands, and the live input list of the host as operand a); div_mod (incl. b=0), sqrt (odd and even n), equality gadget (every constant 0..2^(n+1)), plus-one '
+        'non-input operands, and the live input list of the host as operand a); div_mod (incl. b=0), sqrt (odd and even n), equality gadget (every constant 0..2^(n+1); widths 12..100(200) over a stated alphabet: 10 constants around 0 / 2^(w-1) / 2^w x operand values {constant, every single-bit flip of it, 0, all ones}), plus-one '
         '(inp x out x endianness x add_outputs x result_labels given/omitted x H0/H1/H2), if-then-else and pairwise gadgets on a '
         'host with existing gates/outputs/blocks over every operand tuple incl. internal gates and repeats; all operand values; every generate_* is called, its result edited, and called again (fresh circuit each time). '
         'distinct = distinct configuration classes.',
@@ -512,6 +582,8 @@ def run_task(task, acc):
             for htag, c, ops in _hosts(n):
                 check_equal(acc, n, num, htag, c, ops)
         acc.sample({'fn': 'add_equal', 'n': n, 'num': 1 << n, 'host': 'H0'})
+    elif k == 'equalwide':
+        check_equal_wide(acc, task['n'])
     elif k == 'plus':
         inp = task['inp']
         for out in range(1, task['outmax'] + 1):
